@@ -28,6 +28,9 @@ LEVEL = "exploration"
 MONEY = ["g", "quantity.money:Money"]
 MC = ["g", "quantity.money:MoneyConverter"]
 RATES = {"A": F(110, 100), "B": F(125, 100), "C": F(150, 100)}
+# a second target currency that only some converters cover: the most recent
+# converter decides, also when it has no rate for the pair
+GBP = {"A": F(80, 100), "C": F(90, 100)}
 
 
 # ---------------------------------------------------------------- money
@@ -112,7 +115,9 @@ def money_case(chk, h, convs, label):
             {"k": k + ".lt", "e": OP("<", Q(["i", 100], "USD"),
                                      Q(["i", 100], "EUR"))},
             {"k": k + ".add", "e": OP("+", Q(["i", 0], "USD"),
-                                      Q(["i", 100], "EUR"))}]
+                                      Q(["i", 100], "EUR"))},
+            {"k": k + ".gbp", "e": M(Q(["i", 100], "EUR"), "convert",
+                                     U("GBP"))}]
 
     def build(actions, stack):
         steps = []
@@ -160,13 +165,14 @@ def money_case(chk, h, convs, label):
         return steps
 
     pre = [{"e": M(MONEY, "register_currency", ["s", c])}
-           for c in ("EUR", "USD")]
+           for c in ("EUR", "USD", "GBP")]
     for c in convs:
         pre.append({"id": "$" + c, "e": ["c", MC, [U("EUR")]]})
         pre.append({"name_mc": [V("$" + c), c]})
-        pre.append({"e": M(V("$" + c), "update", ["none"],
-                           ["l", [["t", [U("USD"), num(RATES[c]),
-                                         ["i", 1]]]]])})
+        specs = [["t", [U("USD"), num(RATES[c]), ["i", 1]]]]
+        if c in GBP:
+            specs.append(["t", [U("GBP"), num(GBP[c]), ["i", 1]]])
+        pre.append({"e": M(V("$" + c), "update", ["none"], ["l", specs])})
     pk, ps = probe()
     expected[pk] = dict(kind="probe", stack=[])
     stack = []
@@ -236,6 +242,20 @@ def money_case(chk, h, convs, label):
                         bad.append("%s: 0 USD + 100 EUR gives %s, the most "
                                    "recent converter %s says %s USD" %
                                    (k, brief(add), top, want_amt))
+                    gbp = obs.get(k + ".gbp")
+                    if top in GBP:
+                        if gbp is None or gbp.get("k") != "Q" or \
+                                val(gbp) != 100 * GBP[top]:
+                            bad.append("%s: EUR->GBP must be answered by the "
+                                       "most recent converter %s (%s), got %s"
+                                       % (k, top, 100 * GBP[top], brief(gbp)))
+                    else:
+                        chk.count("most recent converter has no rate for "
+                                  "the pair")
+                        if not is_exc(gbp, "UnitConversionError"):
+                            bad.append("%s: the most recent converter %s has "
+                                       "no EUR->GBP rate, but the conversion "
+                                       "gives %s" % (k, top, brief(gbp)))
                     lt = obs.get(k + ".lt", {})
                     if lt.get("v") is not True:
                         bad.append("%s: 100 USD < 100 EUR is %s" %
@@ -404,6 +424,7 @@ def run(chk, R, tier, seed):
     for c in ("exceptional leaves", "rejected removals", "failing exits",
               "conversions with empty stack",
               "conversions with several converters active",
+              "most recent converter has no rate for the pair",
               "same converter registered twice",
               "rejected removals (generic)",
               "answered by an older converter (newer returned None)",
